@@ -691,3 +691,64 @@ func gcsBuildRefusals(p *Program, r *Report, rule string, fn *ssa.Function, pp *
 			fmt.Sprintf("condition %s; other arguments it reads: {%s}", exprString(iff.Cond), strings.Join(foreign, ", ")))
 	}
 }
+
+// c13verdicts (mutation sweep: `return false, nil` → `return true, nil` on the exhausted-filter, exhausted-query,
+// empty-query and end-of-stream exits of Match / ZipMatchAny / HashMatchAny — none is noticed by the suite): a query
+// function of the filter answers the constant true only on an edge where a decoded filter value has just been found
+// equal to a hashed query item (an integer equality, or a positive comma-ok lookup in the index of decoded values).
+// Every other constant verdict is false: the empty query, the empty filter and a filter whose values ran out match
+// nothing, and "any-of" is true exactly when one item matches.
+func c13verdicts(p *Program, r *Report) {
+	pkg := p.Pkg("gcs")
+	n := 0
+	for _, fn := range p.Funcs {
+		if fn.Pkg != pkg || fn.Parent() != nil || fn.Signature.Recv() == nil || len(fn.Blocks) == 0 {
+			continue
+		}
+		res := fn.Signature.Results()
+		if res.Len() != 2 {
+			continue
+		}
+		if b, ok := res.At(0).Type().Underlying().(*types.Basic); !ok || b.Kind() != types.Bool {
+			continue
+		}
+		for _, ret := range returnsOf(fn) {
+			v, isK := constBool(ret.Results[0])
+			if !isK || !v || !isNilConst(ret.Results[1]) {
+				continue
+			}
+			found := false
+			for _, c := range MustCondsAtBlock(fn, ret.Block()) {
+				val, truth := c.V, c.Truth
+				for {
+					if u, ok := val.(*ssa.UnOp); ok && u.Op == token.NOT {
+						val, truth = u.X, !truth
+						continue
+					}
+					break
+				}
+				switch x := val.(type) {
+				case *ssa.BinOp:
+					bt, isB := x.X.Type().Underlying().(*types.Basic)
+					if isB && bt.Info()&types.IsInteger != 0 && ((x.Op == token.EQL && truth) || (x.Op == token.NEQ && !truth)) {
+						if _, isC := x.Y.(*ssa.Const); !isC {
+							if _, isC := x.X.(*ssa.Const); !isC {
+								found = true
+							}
+						}
+					}
+				case *ssa.Extract:
+					if lk, ok := x.Tuple.(*ssa.Lookup); ok && lk.CommaOk && x.Index == 1 && truth {
+						found = true
+					}
+				}
+			}
+			n++
+			r.Add("C13.every", FnName(fn), "the constant verdict true is given only where a decoded value equals a query value", ret.Pos(), found,
+				"no equality of two computed values and no positive index lookup selects this return: an empty or exhausted filter / query would match")
+		}
+	}
+	if n < 3 {
+		r.Unresolved("C13.every", fmt.Sprintf("constant positive verdicts of the query functions (found %d, expected at least 3)", n))
+	}
+}
